@@ -345,6 +345,13 @@ class Report:
         if len([n for n in self.notes if n.startswith("MODEL-DRIFT")]) < 5:
             self.notes.append("MODEL-DRIFT (non-gating): " + what)
 
+    def beyond(self, what: str) -> None:
+        """A behaviour the specification covers BEYOND the listed property (growth items) disagrees with the code:
+        reported and counted in the evidence, never a VIOLATION of the property."""
+        self.extra["beyond_property_disagreements"] = self.extra.get("beyond_property_disagreements", 0) + 1
+        if len([n for n in self.notes if n.startswith("BEYOND-PROPERTY")]) < 5:
+            self.notes.append("BEYOND-PROPERTY (non-gating): " + what)
+
     def add_trace_result(self, r: Dict[str, Any]) -> None:
         for d in r.get("drifts", []):
             self.drift(f"trace/event #{d[0]}: {d[1]}")
